@@ -206,6 +206,7 @@ def open_variants(ras):
         v.append(('good-noas4', ras, None, 90, ('mp', 'rr'), 4, True, 1, 0))
         v.append(('good-nocaps', ras, None, 90, (), 4, True, 1, 0))
         v.append(('good-packed', ras, ras, 90, ('mp', 'rr', 'crr', 'err', 'gr', 'as4', 'unk'), 4, False, 1, 0))
+        v.append(('good-addpath-unknown-family', ras, ras, 90, ('mp', 'as4', 'apx'), 4, True, 1, 0))
         v.append(('bad-as2', ras + 1 if ras < 65535 else ras - 1, None, 90, ('mp',), 4, True, 2, 2))
         v.append(('bad-as4-disagrees', ras, ras + 1, 90, ('mp', 'as4'), 4, True, 2, 2))
     else:
@@ -478,7 +479,7 @@ def c01n_run(tid, wcfg, cfgline, state, code, sub, extra_data):
     return rec.lines
 
 
-def c01u_run(tid, wcfg, cfgline, state, data):
+def c01u_run(tid, wcfg, cfgline, state, data, cls='UPD_BAD'):
     """a frame of type UPDATE and at least the minimum length, whatever its content, is an UPDATE event for the RFC table:
     FSM error before Established, no reaction of the state machine in Established (C01)"""
     w = World(wcfg)
@@ -489,7 +490,7 @@ def c01u_run(tid, wcfg, cfgline, state, data):
     if state == 'ESTABLISHED':
         rec.step({'k': 'msg', 'c': 1, 'm': 'KA'}, 1)
     w.budget = BUDGET
-    rec.step({'k': 'data', 'c': 1, 'hex': data.hex(), 'cls': 'UPD_BAD', 'm': 'FUZZ_UPD'}, 1, data=data, extra={'flen': len(data)})
+    rec.step({'k': 'data', 'c': 1, 'hex': data.hex(), 'cls': cls, 'm': 'FUZZ'}, 1, data=data, extra={'flen': len(data)})
     w.budget = None
     return rec.lines
 
@@ -497,12 +498,19 @@ def c01u_run(tid, wcfg, cfgline, state, data):
 def c01u_jobs(tier, seed):
     wcfg = dict(tick=10.0, crt=20, idle=20, hold=90, las=65001, ras=65002)
     jobs = []
-    frames = [d for cls, d in fuzz_inputs(world.REPO, tier, seed) if cls == 'FUZZ_UPD' and len(d) >= 23]
+    inputs = fuzz_inputs(world.REPO, tier, seed)
+    frames = [d for cls, d in inputs if cls == 'FUZZ_UPD' and len(d) >= 23]
     for i, d in enumerate(frames):
         for state in ('OPENSENT', 'OPENCONFIRM', 'ESTABLISHED'):
             if tier == 'quick' and (i + len(state)) % 3:
                 continue
-            jobs.append(('c01u', wcfg, state, d))
+            jobs.append(('c01u', wcfg, state, d, 'UPD_BAD'))
+    # the same for frames of type OPEN of at least the minimum length
+    for i, d in enumerate([d for cls, d in inputs if cls == 'FUZZ_OPEN' and len(d) >= 29]):
+        for state in ('OPENSENT', 'OPENCONFIRM', 'ESTABLISHED'):
+            if tier == 'quick' and state != 'OPENSENT' and i % 3:
+                continue
+            jobs.append(('c01u', wcfg, state, d, 'OPEN_ANY'))
     return jobs
 
 
@@ -695,8 +703,8 @@ def run_jobs(args):
                 _, wcfg, sd = job
                 lines = c18q_run(tid, wcfg, cfgline_fn(wcfg), sd)
             elif job[0] == 'c01u':
-                _, wcfg, state, data = job
-                lines = c01u_run(tid, wcfg, cfgline_fn(wcfg), state, data)
+                _, wcfg, state, data, fcls = job
+                lines = c01u_run(tid, wcfg, cfgline_fn(wcfg), state, data, fcls)
             elif job[0] == 'c01n':
                 _, wcfg, state, code, sub, xd = job
                 lines = c01n_run(tid, wcfg, cfgline_fn(wcfg), state, code, sub, xd)
